@@ -25,6 +25,10 @@ ASSUMPTIONS = [
 ]
 
 MASS_CHOICES = [0.0, 0.000511, 0.139, 0.493, 0.938, 1.5]
+# deterministic mass sets for the scan after cal_max_weight(): many bodies (tiny weights relative to the analytic bound),
+# a heavy daughter listed before much lighter ones, equal masses
+CALMAX_SETS = [(3.0, [0.1, 0.2, 0.3, 0.4, 0.5, 0.1]), (1.86484, [0.49368, 0.49368, 0.13957, 0.13957]), (3.2, [0.5, 2.0, 0.2, 0.2]),
+               (4.0, [0.938, 0.938, 0.493, 0.139, 0.139]), (1.0, [0.0, 0.0, 0.0])]
 Q_CHOICES = [1e-6, 1e-3, 0.05, 0.4, 1.0, 3.0]
 
 
@@ -338,9 +342,25 @@ def correspond(ctx, res):
         rec = {}
         old_min = sopt.minimize
 
-        def wrapped(f, x0, *a, _old=old_min, _rec=rec, **kw):
+        def wrapped(f, x0, *a, _old=old_min, _rec=rec, _g=g, **kw):
             r = _old(f, x0, *a, **kw)
-            _rec["x"], _rec["fun"] = np.array(r.x, dtype=np.float64), float(r.fun)
+            # repaired tree: the objective is the weight relative to the best point x0 of a random sample (f(x0) = -1), in
+            # coordinates scaled to the mass ranges, maximised by two methods; the new maximum is 1.001 * the largest of
+            # weight(x0) and the weights at the returned points: the model's parameter `xopt` is whichever point attains it.
+            # Unrepaired tree: one call from a single random start, xopt = x* whatever it is.
+            f0 = float(f(np.array(x0, dtype=np.float64)))
+            relative = abs(f0 + 1.0) < 1e-9
+            _rec["relative"] = relative
+            if relative:
+                lo = np.array([i[0] for i in _g.mass_range], dtype=np.float64)
+                wd = np.array([i[1] - i[0] for i in _g.mass_range], dtype=np.float64)
+                cands = _rec.setdefault("cands", [(-1.0, lo + np.array(x0, dtype=np.float64) * wd)])
+                if np.isfinite(r.fun):
+                    cands.append((float(r.fun), lo + np.array(r.x, dtype=np.float64) * wd))
+                best = min(cands, key=lambda c: c[0])
+                _rec["fun"], _rec["x"] = best[0], best[1]
+            else:
+                _rec["x"], _rec["fun"] = np.array(r.x, dtype=np.float64), float(r.fun)
             return r
         sopt.minimize = wrapped
         try:
@@ -367,6 +387,7 @@ def correspond(ctx, res):
                 cmp("cal_max_weight", [1.0, w_after[j]], 1e-9 * cq, scale=np.array([1.0, max(abs(w_after[j]), 1e-300)]),
                     info=[m0, mi, list(rec["x"]), list(msn[j])], pre=lambda v, w=wt_after: np.array([v[0] / w, v[1]])))
     res.coverage["cal_max_weight_points_compared"] = ncal
+    res.coverage["cal_max_weight_variant"] = "best-of-sample start, relative objective (repaired)" if rec.get("relative") else "single random start (unrepaired)"
 
     # (d) whole generate(N): same stream of draws -> same accepted events, same number of refills, same momenta
     gens = []
@@ -1122,10 +1143,10 @@ def search(ctx, res):
     for (m0, mi) in wsets:
         run_case(res, "weight", (m0, mi, base + nc, 3000 if not deep else 30000, deep), stats)
         nc += 1
-    # (3b) opt-in (VERIF_C10_CALMAX=1): the same scan after cal_max_weight() - a candidate finding, see ASSUMPTIONS
-    import os
-    if os.environ.get("VERIF_C10_CALMAX"):
-        for (m0, mi) in wsets[:40]:
+    # (3b) the same scan after cal_max_weight() (reached through generate_phsp(cal_max=True), generate_toy(cal_phsp_max=True)):
+    # the weights used for unweighting must still be <= 1
+    if True:
+        for (m0, mi) in CALMAX_SETS + wsets[:(40 if more else 12)]:
             run_case(res, "weight", (m0, mi, base + nc, 3000, False, True), stats)
             nc += 1
     # (4) flatness (statistical; false-alarm probability <= 1e-9 per test)
